@@ -10,6 +10,12 @@ import (
 )
 
 func BuildSchemaValidation(schema *openapi3.SchemaRef, validationString string, fieldInterface string) {
+	// Validation rules belong to a usage site. A $ref'ed schema is either a shared component, which must not be
+	// rewritten by one of its usages, or not generated yet (nil Value); the 3.1 generator skips both as well.
+	if schema == nil || schema.Ref != "" || schema.Value == nil {
+		return
+	}
+
 	// Parse and apply validation rules from the Validator field
 	validationRules := strings.Split(validationString, ",")
 	for _, rule := range validationRules {
